@@ -17,7 +17,8 @@ EXPLANATION = (
     "vectors fed to the unchecked gathers come from AMD or passed _invperm; (R4) refactor clears the symbolic flag "
     "before factoring; (R5) the KKT wrapper forwards Dsigns, regularisation parameters and the ordering; (R6) the two "
     "pivot-processing sites (k=0 and k>=1) have the same decision structure; (R7) every buffer that is accumulated "
-    "into during the numeric pass is wholly reset at the start of the pass.")
+    "into during the numeric pass is wholly reset at the start of the pass; (R8) at both pivot sites D[k] == 0 is tested, "
+    "and returns ZeroPivot, on every path before 1/D[k] is formed - with or without regularisation.")
 ASSUMPTIONS = ['rustc MIR construction and trait resolution are correct', 'amd::order returns a valid permutation']
 
 
@@ -322,6 +323,17 @@ def pivot_sites(rep, F, tag):
                 outcome = ret[0] if ret[0] in ('stop',) else ('return' if ret[0] in ('c', 's') else ret[0])
                 rows.add((conds, evs, outcome))
             tables.append(rows)
+            # no reciprocal of an untested pivot: every path of the numeric pass that reaches the Dinv store has
+            # decided D[k] == 0 (false), whatever the regularisation settings; the true edge returns the error
+            zt = lambda c_: [(k_, v_) for k_, v_ in c_ if k_.startswith('eq(') and 'zero()' in k_ and ('arg8[' in k_ or 'index(arg8' in k_)]
+            reach = [r for r in rows if r[2] == 'stop']
+            RZ = rep.rule('C12.R8', 'a zero pivot is reported on every path: D[k] == 0 is tested (and returns ZeroPivot) before 1/D[k] is formed, with or without regularisation')
+            RZ.check(bool(reach) and all(zt(r[0]) and all(v_ == 0 for k_, v_ in zt(r[0])) for r in reach), 'zero-test-before-inverse|%s%s' % ('first' if len(tables) == 1 else 'loop', tag),
+                     'a path of the numeric pass reaches Dinv[k] = 1/D[k] without having tested D[k] == 0 (conditions on such a path: %s): '
+                     'with regularisation enabled but eps <= 0 or delta == 0 a zero pivot yields Dinv = inf instead of ZeroPivot' % (
+                         [dict(r[0]) for r in reach if not zt(r[0])][:1],), f.loc())
+            RZ.check(any(zt(r[0]) and any(v_ == 1 for k_, v_ in zt(r[0])) and r[2] == 'return' for r in rows), 'zero-test-returns|%s%s' % ('first' if len(tables) == 1 else 'loop', tag),
+                     'no path on which D[k] == 0 returns from the factorisation', f.loc())
         a, b = tables
         if a == b:
             R.ok('sites-agree' + tag, {'rows': len(a)})
